@@ -10,6 +10,7 @@ import (
 	"context"
 	"fmt"
 	"runtime"
+	"sort"
 	"strings"
 	"sync"
 	"sync/atomic"
@@ -37,10 +38,32 @@ type Case struct {
 	// nothing polls the context after the interrupted construct, so an interruption that the
 	// construct drops shows as a nil / wrong error of the whole run
 	Tail bool `json:"tail,omitempty"`
+	// Pre: go statements placed in front of the core (same frame): goroutines that were started earlier by the
+	// run and have ended in some way (or are blocked) by the time the cancellation lands
+	Pre []string `json:"pre,omitempty"`
+	// Cap, Senders, PaceNs: parameters of the racing cores (several senders / receivers on one buffered channel)
+	Cap     int `json:"cap,omitempty"`
+	Senders int `json:"senders,omitempty"`
+	PaceNs  int `json:"pace_ns,omitempty"`
+	// Head, Body: loop form and body of the quiet loops (loops that make no host call at all)
+	Head string `json:"head,omitempty"`
+	Body string `json:"body,omitempty"`
 }
 
 var spinCores = []string{"loop", "loop_cond", "cfor", "cfor_nocond", "forin_nested", "forin_map", "recursion", "loop_in_switch", "loop_nested_break", "loop_continue", "fanout_range", "fanout_recv", "fanout_recv2", "pipeline_relay", "deep_recursion", "fail_after_tick", "member_after_tick", "throw_spin", "fail_in_finally_try", "tick_sequence"}
-var blockCores = []string{"recv", "send", "recv2", "range_chan", "recv_stmt", "drain_two", "drain_three", "forward_blocked", "forward_full", "module_write_after_failed_path"}
+var blockCores = []string{"recv", "send", "recv2", "range_chan", "recv_stmt", "drain_two", "drain_three", "forward_blocked", "forward_full", "module_write_after_failed_path", "send_race_host_room", "send_race_host_room", "send_race_script_room", "send_race_script_room", "recv_race_host_item", "quiet_loop", "quiet_loop"}
+
+// quiet loops: head x body; nothing in them calls the host, only the return of the run is observed
+var quietHeads = []string{"loop", "loop_cond", "cfor_nocond", "cfor", "forin_slice_in_loop", "forin_map_in_loop"}
+var quietBodies = []string{"empty", "continue", "continue_first", "assign", "if_continue", "else_continue", "assign_continue", "inner_break", "inner_forin_continue", "switch_continue", "try_continue", "catch_continue"}
+
+// preKinds are the go statements that may precede the core: the goroutine ends normally, with an error, with a
+// Go panic of a host function (captured by the go statement when not in debug mode), or stays blocked
+var preKinds = []string{"go_host_ok", "go_host_panic", "go_host_panic_args", "go_fn_ok", "go_fn_error", "go_fn_throw", "go_fn_host_panic", "go_fn_blocked", "go_fn5_error", "go_named_host_panic"}
+
+func isRace(core string) bool {
+	return strings.HasPrefix(core, "send_race") || strings.HasPrefix(core, "recv_race")
+}
 var wrappers = []string{"fn0", "fn2", "fn4", "fn5", "fnvar", "anon", "go_join", "go_join5", "try_body", "catch", "finally", "coalesce_l", "coalesce_r", "ternary", "deferred", "list_elem", "go_arg", "module", "if", "switch_case", "forin_once", "try_empty_catch", "try_empty_catch_e", "try_empty_finally", "deferred_implicit", "deferred_top", "deferred_twice", "return_call", "finally_after_throwing_catch", "finally_after_returning_catch", "callback", "defer_spin_behind", "defer_block_behind", "deferred_spread", "recv_ok_target", "recv_ok_target_new"}
 
 func gen(t *rapid.T) Case {
@@ -61,6 +84,25 @@ func gen(t *rapid.T) Case {
 	c.Procs = rapid.SampledFrom([]int{0, 0, 1, 2, 4}).Draw(t, "procs")
 	c.Stale = rapid.IntRange(0, 3).Draw(t, "stale") == 0
 	c.Tail = rapid.IntRange(0, 2).Draw(t, "tail") == 0
+	if rapid.IntRange(0, 2).Draw(t, "pre?") == 0 {
+		np := rapid.SampledFrom([]int{1, 1, 2}).Draw(t, "npre")
+		for i := 0; i < np; i++ {
+			c.Pre = append(c.Pre, rapid.SampledFrom(preKinds).Draw(t, "pre"))
+		}
+	}
+	if isRace(c.Core) {
+		c.Cap = rapid.IntRange(1, 3).Draw(t, "cap")
+		c.Senders = rapid.IntRange(1, 3).Draw(t, "senders")
+		c.PaceNs = rapid.SampledFrom([]int{1000, 3000, 10000}).Draw(t, "pace")
+		// the racing goroutines need some time to meet
+		c.DelayUs = rapid.SampledFrom([]int{200, 1000, 2000}).Draw(t, "racedelay")
+		// no go statements in front of these cores: a run that does not return is then the core's
+		c.Pre = nil
+	}
+	if c.Core == "quiet_loop" {
+		c.Head = rapid.SampledFrom(quietHeads).Draw(t, "head")
+		c.Body = rapid.SampledFrom(quietBodies).Draw(t, "body")
+	}
 	if c.Core == "tick_sequence" {
 		// a straight line ends by itself: only a cancellation placed inside one of its calls is decisive
 		c.Mode = "A"
@@ -87,6 +129,139 @@ func hasCallback(c Case) bool {
 }
 
 // ---------- rendering ----------
+
+func preSrc(kind string) string {
+	switch kind {
+	case "go_host_ok":
+		return "go id(1)"
+	case "go_host_panic":
+		return "go boom()"
+	case "go_host_panic_args":
+		return "go boomv(1, 2)"
+	case "go_fn_ok":
+		return "go func() {\n pv = 1\n}()"
+	case "go_fn_error":
+		return "go func() {\n nosuchfn()\n}()"
+	case "go_fn_throw":
+		return "go func() {\n throw \"g\"\n}()"
+	case "go_fn_host_panic":
+		return "go func() {\n boom()\n}()"
+	case "go_fn_blocked":
+		return "go func() {\n pv = <-pnever\n}()"
+	case "go_fn5_error":
+		return "go func(a, b, c, d, e) {\n nosuchfn()\n}(1, 2, 3, 4, 5)"
+	case "go_named_host_panic":
+		return "func pg(a) {\n boomv(a)\n}\ngo pg(1)"
+	}
+	panic("unknown prelude " + kind)
+}
+
+// raceSrc renders the racing cores: the main flow and c.Senders goroutines of the script work on ONE buffered
+// channel at the same time. The main flow itself makes the room (or the item) its next operation needs, so once it is
+// blocked nobody serves the channel any more: the run stays blocked until the cancellation.
+func raceSrc(c Case) string {
+	capacity, senders := c.Cap, c.Senders
+	if capacity < 1 {
+		capacity = 1
+	}
+	if senders < 1 {
+		senders = 1
+	}
+	var b strings.Builder
+	switch c.Core {
+	case "send_race_host_room":
+		// rc is a channel of the host; roomch() (host) takes one value out of it when there is one and returns it
+		for i := 0; i < senders; i++ {
+			b.WriteString("go func() {\n for {\n  rc <- pace()\n }\n}()\n")
+		}
+		b.WriteString("entered()\nfor {\n roomch() <- 1\n}")
+	case "send_race_script_room":
+		fmt.Fprintf(&b, "sc = make(chan int64, %d)\n", capacity)
+		for i := 0; i < senders; i++ {
+			b.WriteString("go func() {\n for {\n  sc <- pace()\n }\n}()\n")
+		}
+		b.WriteString("entered()\nsc <- 1\nfor {\n sv = <-sc\n sc <- 1\n}")
+	case "recv_race_host_item":
+		// itemch() (host) puts one value into rc when there is room and returns it
+		for i := 0; i < senders; i++ {
+			b.WriteString("go func() {\n for {\n  pace()\n  gv = <-rc\n }\n}()\n")
+		}
+		b.WriteString("entered()\nfor {\n sv = <-itemch()\n}")
+	default:
+		panic("unknown racing core " + c.Core)
+	}
+	return b.String()
+}
+
+// quietSrc renders a loop that spins without any host call: head x body.
+func quietSrc(head, body string) string {
+	var b string
+	switch body {
+	case "empty":
+		b = ""
+	case "continue":
+		b = "continue"
+	case "continue_first":
+		b = "continue\nqx = 1"
+	case "assign":
+		b = "qx = 1"
+	case "if_continue":
+		b = "if qz == 0 {\n continue\n}"
+	case "else_continue":
+		b = "if qz == 1 {\n qx = 2\n} else {\n continue\n}"
+	case "assign_continue":
+		b = "qx = 1\ncontinue"
+	case "inner_break":
+		b = "for {\n break\n}"
+	case "inner_forin_continue":
+		b = "for qe in [1, 2] {\n continue\n}"
+	case "switch_continue":
+		b = "switch qz {\ncase 0:\n continue\n}"
+	case "try_continue":
+		b = "try {\n continue\n} catch qerr {\n}"
+	case "catch_continue":
+		b = "try {\n throw 1\n} catch qerr {\n continue\n}"
+	default:
+		panic("unknown quiet body " + body)
+	}
+	blk := func(h string) string {
+		if b == "" {
+			return h + " {\n}"
+		}
+		return h + " {\n" + indent(b) + "\n}"
+	}
+	pre := "qz = 0\nentered()\n"
+	switch head {
+	case "loop":
+		return pre + blk("for")
+	case "loop_cond":
+		return "qc = true\n" + pre + blk("for qc")
+	case "cfor_nocond":
+		return pre + blk("for qi = 0; ; qi++")
+	case "cfor":
+		return pre + blk("for qi = 0; qi >= 0; qi++")
+	case "forin_slice_in_loop":
+		return pre + "for {\n" + indent(blk("for qv in big")) + "\n}"
+	case "forin_map_in_loop":
+		return pre + "for {\n" + indent(blk("for qk, qv in bigm")) + "\n}"
+	}
+	panic("unknown quiet head " + head)
+}
+
+func coreOf(c Case) string {
+	var body string
+	if c.Core == "quiet_loop" {
+		body = quietSrc(c.Head, c.Body)
+	} else if isRace(c.Core) {
+		body = raceSrc(c)
+	} else {
+		body = coreSrc(c.Core)
+	}
+	for i := len(c.Pre) - 1; i >= 0; i-- {
+		body = preSrc(c.Pre[i]) + "\n" + body
+	}
+	return body
+}
 
 func coreSrc(core string) string {
 	switch core {
@@ -269,7 +444,7 @@ func wrap(w string, body string, level int, tail bool) string {
 }
 
 func source(c Case) string {
-	body := coreSrc(c.Core)
+	body := coreOf(c)
 	for i, w := range c.Wrappers {
 		if w == "deferred_top" && deferFrameIsGoroutine(c.Wrappers[i+1:]) {
 			// a defer statement whose function frame is the joined goroutine's would run after the
@@ -339,7 +514,8 @@ const runawayLimit = 50
 
 func runCase(c Case, bound time.Duration) result {
 	src := source(c)
-	if c.Procs > 0 {
+	if c.Procs > 0 && !leaked {
+		// (a run that did not return may still keep a processor busy: later cases then leave GOMAXPROCS alone)
 		defer runtime.GOMAXPROCS(runtime.GOMAXPROCS(c.Procs))
 	}
 	var ticks, post, postP atomic.Int64
@@ -368,6 +544,7 @@ func runCase(c Case, bound time.Duration) result {
 	e.Define("big", big)
 	e.Define("bigm", bigm)
 	e.Define("never", make(chan interface{}))
+	e.Define("pnever", make(chan interface{})) // a second channel nobody serves, for goroutines started in front of the core
 	e.Define("id", func(x interface{}) interface{} { return x })
 	e.Define("call", func(f func()) { f() })
 	e.Define("entered", func() { enteredOnce.Do(func() { close(enteredCh) }) })
@@ -388,6 +565,48 @@ func runCase(c Case, bound time.Duration) result {
 		}
 	})
 	e.Define("warmup", int64(0))
+	// host functions that panic: a go statement captures the panic (not in debug mode)
+	e.Define("boom", func() { panic("boom") })
+	e.Define("boomv", func(a ...interface{}) int64 { var m map[string]int64; m["x"] = 1; return 0 })
+	if isRace(c.Core) {
+		capacity := c.Cap
+		if capacity < 1 {
+			capacity = 1
+		}
+		rc := make(chan int64, capacity)
+		e.Define("rc", rc)
+		// pace() keeps the calling goroutine busy for a short, varying time (a pseudo-random sequence fixed by the case)
+		var paceState atomic.Uint64
+		paceState.Store(uint64(c.PaceNs)*2654435761 + uint64(c.Senders)*97 + uint64(capacity))
+		paceNs := uint64(c.PaceNs)
+		if paceNs < 1 {
+			paceNs = 1
+		}
+		e.Define("pace", func() int64 {
+			x := paceState.Add(0x9E3779B97F4A7C15)
+			x ^= x >> 29
+			x *= 0xBF58476D1CE4E5B9
+			x ^= x >> 32
+			d := time.Duration(x % paceNs)
+			for t0 := time.Now(); time.Since(t0) < d; {
+			}
+			return 2
+		})
+		e.Define("roomch", func() chan int64 {
+			select {
+			case <-rc:
+			default:
+			}
+			return rc
+		})
+		e.Define("itemch", func() chan int64 {
+			select {
+			case rc <- 3:
+			default:
+			}
+			return rc
+		})
+	}
 	e.Define("p", func(id int64) int64 {
 		if cancelled.Load() {
 			postP.Add(1)
@@ -458,6 +677,9 @@ func runCase(c Case, bound time.Duration) result {
 func oracle(c Case, o *h.Obs) *h.Fail {
 	src := source(c)
 	o.Key = fmt.Sprintf("%s|%s|%d|%d|%d|%v", src, c.Mode, c.K, c.DelayUs, c.Procs, c.Stale)
+	if isRace(c.Core) {
+		o.Key += fmt.Sprintf("|%d", c.PaceNs)
+	}
 	o.Note = fmt.Sprintf("mode=%s k=%d delay=%dus procs=%d\n%s", c.Mode, c.K, c.DelayUs, c.Procs, src)
 	if c.Mode == "B" && c.Core == "tick_sequence" {
 		o.Excluded = "a straight-line core needs the cancellation placed inside one of its calls"
@@ -472,9 +694,17 @@ func oracle(c Case, o *h.Obs) *h.Fail {
 		o.Excluded = "callback wrapper (known finding F-callback-ctx)"
 		return nil
 	}
-	if hungCores[c.Core] && !ctxRef.InReplay() {
+	if (hungCores[c.Core] || (c.Core == "quiet_loop" && hungCores["quiet_loop:"+c.Body])) && !ctxRef.InReplay() {
 		o.Excluded = "core already reported as not returning after cancellation"
 		return nil
+	}
+	if !ctxRef.InReplay() {
+		for _, k := range c.Pre {
+			if hungPre[k] {
+				o.Excluded = "go statement in front of the core already part of a run reported as not returning"
+				return nil
+			}
+		}
 	}
 	const bound = 3 * time.Second
 	r := runCase(c, bound)
@@ -494,6 +724,17 @@ func oracle(c Case, o *h.Obs) *h.Fail {
 	if c.Tail {
 		o.Class("tail_position_nothing_follows_the_core")
 	}
+	for _, k := range c.Pre {
+		o.Class("pre_" + k)
+	}
+	o.Class(fmt.Sprintf("pre_count_%d", len(c.Pre)))
+	if isRace(c.Core) {
+		o.Class(fmt.Sprintf("race_cap_%d_goroutines_%d", c.Cap, c.Senders))
+	}
+	if c.Core == "quiet_loop" {
+		o.Class("quiet_head_" + c.Head)
+		o.Class("quiet_body_" + c.Body)
+	}
 	if c.Stale {
 		if _, _, ok := sourceParts(c); ok {
 			o.Class("function_defined_by_an_earlier_run_" + c.Wrappers[len(c.Wrappers)-1])
@@ -512,6 +753,16 @@ func oracle(c Case, o *h.Obs) *h.Fail {
 			return "C02|callback-runs-under-background-context"
 		}
 		if clause == "no-return" || clause == "late-return" {
+			if len(c.Pre) > 0 {
+				// go statements precede the core: one signature per set of them, whatever the core and the wrappers
+				ks := append([]string{}, c.Pre...)
+				sort.Strings(ks)
+				return "C02|" + clause + "|after:" + strings.Join(ks, "+")
+			}
+			if c.Core == "quiet_loop" {
+				// one signature per loop body, whatever the loop form and the wrappers
+				return "C02|" + clause + "|quiet_loop|body=" + c.Body
+			}
 			// a hang costs seconds per run: one signature per core, whatever the wrappers
 			return "C02|" + clause + "|" + c.Core
 		}
@@ -522,12 +773,25 @@ func oracle(c Case, o *h.Obs) *h.Fail {
 		return h.Failf(sig("keeps-running"), "the script kept calling tick() after the context was cancelled (stopped by the harness after %d calls)\n%s", runawayLimit, detail)
 	}
 	if !r.returned {
+		if !ctxRef.InReplay() && len(c.Pre) > 0 {
+			// which part keeps the run from returning? The same program without the go statements in front of the
+			// core is run once: when it does not return either, it is the one that is reported
+			bare := c
+			bare.Pre = nil
+			if hungCores[bare.Core] || (bare.Core == "quiet_loop" && hungCores["quiet_loop:"+bare.Body]) {
+				return nil // already reported
+			}
+			if rb := runCase(bare, bound); rb.infra == "" && rb.cancelled && !rb.returned {
+				c, r, src = bare, rb, source(bare)
+				detail = fmt.Sprintf("mode=%s k=%d delay=%dus procs=%d ticks=%d post-cancel ticks=%d post-cancel probes=%d\nsource:\n%s", c.Mode, c.K, c.DelayUs, c.Procs, r.ticks, r.postTicks, r.postProbes, src)
+			}
+		}
 		f := h.Failf(sig("no-return"), "ExecuteContext did not return within %v of the cancellation\n%s", bound+2*time.Second, detail)
 		if !ctxRef.InReplay() {
 			// every reproduction of a hang costs seconds, so it is reported as found
 			// (unshrunk) and further cases with this core are not executed again
 			ctxRef.Violation("cancel", f, c)
-			hungCores[c.Core] = true
+			markHung(c)
 			return nil
 		}
 		return f
@@ -537,7 +801,7 @@ func oracle(c Case, o *h.Obs) *h.Fail {
 		f := h.Failf(sig("late-return"), "ExecuteContext returned %v after the cancellation (bound %v)\n%s", r.lateness, bound, detail)
 		if !ctxRef.InReplay() {
 			ctxRef.Violation("cancel", f, c)
-			hungCores[c.Core] = true
+			markHung(c)
 			return nil
 		}
 		return f
@@ -574,11 +838,31 @@ func isSpin(core string) bool {
 // instead of excluded, so that the known finding can be reproduced).
 var ctxRef *h.Ctx
 var hungCores = map[string]bool{}
+var hungPre = map[string]bool{}
+var leaked bool // a run of this process did not return after its cancellation
+
+// markHung keeps the process from paying for the same hang again: without go statements in front of the core the
+// core is not executed again, with them those go statements are not generated again (the core stays in use)
+func markHung(c Case) {
+	leaked = true
+	if len(c.Pre) > 0 {
+		for _, k := range c.Pre {
+			hungPre[k] = true
+		}
+		return
+	}
+	if c.Core == "quiet_loop" {
+		hungCores["quiet_loop:"+c.Body] = true
+		return
+	}
+	hungCores[c.Core] = true
+}
 
 func TestC02(t *testing.T) {
 	c := h.New(t, "C02")
 	defer c.Finish()
 	ctxRef = c
 	c.Rule("program = core wrapped in 0..3 constructs; cores: for{}, for cond{}, C-style loops, nested for-in over slices/maps, recursion, loops in switch / with break / continue, buffered channels fed by a spinning producer goroutine and drained by two consumers (for-in, receive, two-value receive) or relayed through a second channel (spinning), blocked receive / send / two-value receive / range over a channel nobody serves; wrappers: script functions of arity 0,2,4 (direct path), 5 and variadic (reflect path), anonymous call, go + join (both go paths), try body / catch / finally, ?? on either side, ternary, deferred call, list element, Go-call argument, module body, if, switch case, for-in body; every level is followed by a sentinel probe. cancel: mode A from inside the k-th tick() host call, mode B asynchronously d microseconds after the core was entered; GOMAXPROCS in {default,1,2,4}; in a quarter of the cases the outermost function is defined by an earlier run (background context) of the same environment and only called by the cancellable run. non-trivial = at least one wrapper and the cancel landed while the core was active; distinct = (source, mode, k, delay, procs). The callback wrapper (script function converted to a Go func) is the known finding F-callback-ctx: excluded from generation, reproduced from a committed replay")
-	h.Run(c, "cancel", c.N(6000, 30000), gen, oracle)
+	c.Rule("added after the seventh round: (a) in a third of the cases one or two go statements stand in front of the core (same frame): a host function that returns / panics (with and without arguments; the go statement captures the panic), a script function that ends normally / with a runtime error / with a thrown error / in a panicking host function / stays blocked on a channel of its own, through the direct and the reflect call path and by name; whatever became of those goroutines, the cancelled run must return; (b) racing cores (asynchronous mode, cancel 200..2000 us after entry): the main flow and 1..3 goroutines of the script send to ONE buffered channel (capacity 1..3) at the same time, the goroutines paced by a host call that takes 0..10 us; the main flow makes the room for its own next send (a host call in channel position that takes one value out, or a receive statement of its own), so once the main flow is blocked in its send nobody serves the channel and the run stays blocked until the cancellation; the mirror image for receives (the main flow puts the one item it then receives, the goroutines receive as well); (c) quiet loops (asynchronous mode): loop form {for, for cond, C-style with and without condition, for-in over a slice / a map inside for{}} x body {empty, continue, continue first, assignment, if / else branch that continues, assignment then continue, inner loop that breaks, inner for-in that continues, switch case / try body / catch block that continues}: nothing in them calls the host, the run must return with the interruption error")
+	h.Run(c, "cancel", c.N(6400, 32000), gen, oracle)
 }
